@@ -777,6 +777,8 @@ def finish(prop: str, tier: str, base_seed: int, merged: dict, engine: Any, shri
     }
     if extra_cov:
         cov.update(extra_cov)
+    hazard = set(getattr(engine, "HAZARD_PROBES", ()))  # indicators of a defect: zero is the good answer
+    cov["hazard_probes_expected_zero"] = {k: v for k, v in cov["probes"].items() if k in hazard}
     ev = {
         "property_id": prop,
         "tier": tier,
@@ -787,8 +789,6 @@ def finish(prop: str, tier: str, base_seed: int, merged: dict, engine: Any, shri
         "wall_s": round(wall, 2),
         "violations": len(reports),
     }
-    hazard = set(getattr(engine, "HAZARD_PROBES", ()))  # indicators of a defect: zero is the good answer
-    cov["hazard_probes_expected_zero"] = {k: v for k, v in cov["probes"].items() if k in hazard}
     zero = [k for k, v in cov["probes"].items() if v == 0 and k not in hazard]
     if zero:
         ev["assumptions"].append("probes never hit in this run (unexplored): " + ", ".join(zero))
